@@ -8785,3 +8785,154 @@ mod tests {
     //     );
     // }
 }
+
+// ---------------------------------------------------------------------------
+// Verification hooks for property C38 (add-only, behaviour neutral): open the
+// encrypted exchange code / consent token that `check_oauth2_authorisation` and
+// `check_oauth2_authorise_permit` issue, with the very keys the server uses to
+// open them itself, so that an external harness can observe what they carry.
+#[cfg(feature = "verif-hooks")]
+#[derive(Debug, Clone)]
+pub struct VerifC38Grant {
+    /// account the code was issued to / identity the consent token is bound to
+    pub account_uuid: Uuid,
+    pub session_id: Uuid,
+    pub expiry: u64,
+    pub code_challenge: Option<Vec<u8>>,
+    pub redirect_uri: Url,
+    pub scopes: BTreeSet<String>,
+    pub nonce: Option<String>,
+    /// consent token only
+    pub client_id: Option<String>,
+    /// consent token only
+    pub state: Option<String>,
+    /// consent token only: true = fragment, false = query
+    pub response_mode_fragment: Option<bool>,
+}
+
+#[cfg(feature = "verif-hooks")]
+impl Oauth2RSInner {
+    fn verif_c38_decode_code(&self, client_id: &str, code: &str) -> Option<VerifC38Grant> {
+        let o2rs = self.rs_set_get(client_id)?;
+        let jwe_compact = JweCompact::from_str(code).ok()?;
+        let jwe = o2rs.key_object.jwe_decrypt(&jwe_compact).ok()?;
+        let x: TokenExchangeCode = jwe.from_json().ok()?;
+        Some(VerifC38Grant {
+            account_uuid: x.account_uuid,
+            session_id: x.session_id,
+            expiry: x.expiry,
+            code_challenge: x.code_challenge,
+            redirect_uri: x.redirect_uri,
+            scopes: x.scopes,
+            nonce: x.nonce,
+            client_id: None,
+            state: None,
+            response_mode_fragment: None,
+        })
+    }
+
+    fn verif_c38_decode_consent(&self, consent_token: &str) -> Option<VerifC38Grant> {
+        let jwe_compact = JweCompact::from_str(consent_token).ok()?;
+        let jwe = self.consent_key.decipher(&jwe_compact).ok()?;
+        let x: ConsentToken = jwe.from_json().ok()?;
+        Some(VerifC38Grant {
+            account_uuid: Uuid::from(&x.ident_id),
+            session_id: x.session_id,
+            expiry: x.expiry,
+            code_challenge: x.code_challenge,
+            redirect_uri: x.redirect_uri,
+            scopes: x.scopes,
+            nonce: x.nonce,
+            client_id: Some(x.client_id),
+            state: x.state,
+            response_mode_fragment: Some(x.response_mode == SupportedResponseMode::Fragment),
+        })
+    }
+}
+
+#[cfg(feature = "verif-hooks")]
+impl IdmServerProxyReadTransaction<'_> {
+    pub fn verif_c38_decode_code(&self, client_id: &str, code: &str) -> Option<VerifC38Grant> {
+        self.oauth2rs.inner.verif_c38_decode_code(client_id, code)
+    }
+
+    pub fn verif_c38_decode_consent(&self, consent_token: &str) -> Option<VerifC38Grant> {
+        self.oauth2rs.inner.verif_c38_decode_consent(consent_token)
+    }
+}
+
+#[cfg(feature = "verif-hooks")]
+impl IdmServerProxyWriteTransaction<'_> {
+    pub fn verif_c38_decode_code(&self, client_id: &str, code: &str) -> Option<VerifC38Grant> {
+        self.oauth2rs.inner.verif_c38_decode_code(client_id, code)
+    }
+}
+
+#[cfg(feature = "verif-hooks")]
+impl AuthorisePermitSuccess {
+    /// true = the code is returned in the fragment, false = in the query
+    pub fn verif_c38_response_mode_fragment(&self) -> bool {
+        self.response_mode == SupportedResponseMode::Fragment
+    }
+}
+
+/// verif C39: what a refresh token issued by this server carries (observation only).
+#[cfg(feature = "verif-hooks")]
+#[derive(Debug, Clone)]
+pub struct VerifC39Refresh {
+    pub scopes: BTreeSet<String>,
+    pub session_id: Uuid,
+    pub parent_session_id: Option<Uuid>,
+    pub account: Uuid,
+    pub exp: i64,
+    pub iat: i64,
+}
+
+#[cfg(feature = "verif-hooks")]
+impl IdmServerProxyReadTransaction<'_> {
+    /// verif C39: decrypt a refresh token with the key of the client that issued it
+    /// (the same steps as the cfg(test) `reflect_oauth2_token`). `None` when it is not a
+    /// refresh token of this server.
+    pub fn verif_c39_reflect_refresh(&self, token: &str) -> Option<VerifC39Refresh> {
+        let jwec = JweCompact::from_str(token).ok()?;
+        let kid = jwec.header().kid.as_ref()?;
+        let o2rs = self.oauth2rs.inner.rs_from_kid(kid)?;
+        let tok: Oauth2TokenType = o2rs
+            .key_object
+            .jwe_decrypt(&jwec)
+            .ok()
+            .and_then(|jwe| jwe.from_json().ok())?;
+        match tok {
+            Oauth2TokenType::Refresh {
+                scopes,
+                parent_session_id,
+                session_id,
+                exp,
+                uuid,
+                iat,
+                ..
+            } => Some(VerifC39Refresh {
+                scopes,
+                session_id,
+                parent_session_id,
+                account: uuid,
+                exp,
+                iat,
+            }),
+            Oauth2TokenType::ClientAccess { .. } => None,
+        }
+    }
+
+    /// verif C39: `oauth2_openid_userinfo` on a token given as a string (JwsCompact is not
+    /// nameable outside the crate). `Err(None)` = the string is not a compact JWS.
+    pub fn verif_c39_userinfo(
+        &mut self,
+        client_id: &str,
+        token: &str,
+        ct: Duration,
+    ) -> Result<OidcToken, Option<Oauth2Error>> {
+        let jws = JwsCompact::from_str(token).map_err(|_| None)?;
+        self.oauth2_openid_userinfo(client_id, &jws, ct)
+            .map_err(Some)
+    }
+}
